@@ -20,6 +20,7 @@ type RoundOpts struct {
 	Features     []string // export features: err again conc wait concwait
 	MaxRetry     int
 	MaxWaits     int
+	MaxDeliver   int
 	Simulate     int // > 0: TLC random simulation with that many behaviours instead of exhaustive enumeration
 	Job          JobOpts
 	Invariants   []string
@@ -61,7 +62,7 @@ func (c *Ctx) TokenGameRound(fs []Finding, ps []*prog.Program, o RoundOpts) erro
 		feat += fmt.Sprintf("%q", f)
 	}
 	feat += "}"
-	o.ExtraCfg += fmt.Sprintf("\n  Features = %s\n  MaxRetry = %d\n  MaxWaits = %d\n", feat, o.MaxRetry, o.MaxWaits)
+	o.ExtraCfg += fmt.Sprintf("\n  Features = %s\n  MaxRetry = %d\n  MaxWaits = %d\n  MaxDeliver = %d\n", feat, o.MaxRetry, o.MaxWaits, o.MaxDeliver)
 	scheds, _, err := c.ExportSchedules(o.ExportModule, ps, o.MaxSteps, o.ExtraCfg, o.Invariants, o.Simulate)
 	if err != nil {
 		return fmt.Errorf("%s export: %w", o.Label, err)
